@@ -486,15 +486,15 @@ PROPS["C04"] = {
                    "beneath R (direct path) || second canceller || destroy a sibling || bind E beneath the fresh C || context cancelled before binding. Oracle at quiescence: "
                    "cancelled <=> it or an ancestor was a cancel target; controls untouched; exactly one winner; stays cancelled until reset.",
     "legs": [
-        leg("grand", "c04_ctx", (3, 4), {"kind": "grand"}, what="cancel(R) || bind C beneath P"),
-        leg("direct", "c04_ctx", (3, 4), {"kind": "direct"}, what="cancel(R) || bind D beneath R"),
-        leg("both", "c04_ctx", (2, 3), {"kind": "both"}, what="cancel(R) || bind C beneath P || bind D beneath R"),
-        leg("two_cancel", "c04_ctx", (2, 3), {"kind": "two_cancel"}, what="two cancellers of R || bind C beneath P"),
-        leg("leaf_cancel", "c04_ctx", (2, 3), {"kind": "leaf_cancel"}, what="two cancellers of a leaf context (no children yet) || bind a first child beneath it: exactly one winner, the child ends up cancelled"),
-        leg("fresh_cancel", "c04_ctx", (2, 3), {"kind": "fresh_cancel"}, what="two cancellers of a context that was never bound: exactly one winner"),
-        leg("mid", "c04_ctx", (2, 3), {"kind": "mid"}, what="cancel(P) || bind C beneath P || bind D beneath R (D, R stay clean)"),
-        leg("destroy", "c04_ctx", (2, 3), {"kind": "destroy"}, what="cancel(R) || bind C beneath P || destroy sibling X"),
-        leg("deep", "c04_ctx", (2, 3), {"kind": "deep"}, what="cancel(R) || bind C beneath P || bind E beneath C"),
+        leg("grand", "c04_ctx", (4, 5), {"kind": "grand"}, what="cancel(R) || bind C beneath P"),
+        leg("direct", "c04_ctx", (4, 5), {"kind": "direct"}, what="cancel(R) || bind D beneath R"),
+        leg("both", "c04_ctx", (3, 4), {"kind": "both"}, what="cancel(R) || bind C beneath P || bind D beneath R"),
+        leg("two_cancel", "c04_ctx", (3, 4), {"kind": "two_cancel"}, what="two cancellers of R || bind C beneath P"),
+        leg("leaf_cancel", "c04_ctx", (3, 4), {"kind": "leaf_cancel"}, what="two cancellers of a leaf context (no children yet) || bind a first child beneath it: exactly one winner, the child ends up cancelled"),
+        leg("fresh_cancel", "c04_ctx", (3, 4), {"kind": "fresh_cancel"}, what="two cancellers of a context that was never bound: exactly one winner"),
+        leg("mid", "c04_ctx", (3, 4), {"kind": "mid"}, what="cancel(P) || bind C beneath P || bind D beneath R (D, R stay clean)"),
+        leg("destroy", "c04_ctx", (3, 4), {"kind": "destroy"}, what="cancel(R) || bind C beneath P || destroy sibling X"),
+        leg("deep", "c04_ctx", (3, 4), {"kind": "deep"}, what="cancel(R) || bind C beneath P || bind E beneath C"),
         leg("grand-tso", "c04_ctx@tso", (2, 3), {"kind": "grand"}, flags=("-fp", "-tso"), what="cancel(R) || bind C beneath P under x86-TSO store buffers (epoch / may_have_children / state publication order)"),
         leg("direct-tso", "c04_ctx@tso", (2, 3), {"kind": "direct"}, flags=("-fp", "-tso"), what="cancel(R) || bind D beneath R under store buffers"),
         leg("both-tso", "c04_ctx@tso", (2, 2), {"kind": "both"}, flags=("-fp", "-tso"), what="three threads under store buffers"),
@@ -584,17 +584,17 @@ PROPS["C17"] = {
     "rule": "single-threaded legs: one case = one size block / boundary size / (alignment,size) pair / operation sequence, all enumerated; thread legs: every schedule within the deviation bound; "
             "distinct = distinct outcome strings",
     "legs": [
-        leg("sweep+seq4", "c17_seq", (0, 0), {"depth": 4}, flags=(), what="size/alignment sweep + all 12^4 operation sequences on fresh pools", tiers=("quick",)),
-        leg("sweep+seq5", "c17_seq", (0, 0), {"depth": 5}, flags=(), what="size/alignment sweep + all 12^5 operation sequences on fresh pools", tiers=("thorough",)),
-        leg("mt-foreign", "c17_mt", (3, 5), {"kind": "foreign", "size": 48}, what="foreign free vs owner malloc, 48-byte class"),
-        leg("mt-foreign8", "c17_mt", (3, 5), {"kind": "foreign", "size": 8}, what="8-byte class"),
-        leg("mt-foreign-fit", "c17_mt", (3, 4), {"kind": "foreign", "size": 3000}, what="fitting-size class"),
-        leg("mt-foreign-aligned", "c17_mt", (2, 3), {"kind": "foreign", "size": 1500, "align": 256, "after": 1792, "nown": 4}, what="blocks from scalable_aligned_malloc(1500, 256) (user address inside a 1792-byte slot) freed by another thread while the owner allocates full-slot objects"),
-        leg("mt-foreign-aligned2", "c17_mt", (2, 2), {"kind": "foreign", "size": 3000, "align": 1024, "after": 4032, "nown": 3}, what="same for the 4032-byte fitting bin, alignment 1024"),
-        leg("mt-foreign-aligned3", "c17_mt", (2, 2), {"kind": "foreign", "size": 2000, "align": 128, "after": 2688, "nown": 4}, what="same for the 2688-byte bin, alignment 128"),
-        leg("mt-exit", "c17_mt", (2, 3), {"kind": "exit", "size": 48}, what="owner thread shuts down with live blocks; another thread frees them and allocates (orphan adoption)"),
-        leg("mt-last", "c17_mt", (3, 4), {"kind": "last", "size": 8000}, what="foreign free of the only object of a slab vs owner malloc"),
-        leg("mt-large", "c17_mt", (2, 3), {"kind": "large", "size": 100000}, what="large objects: foreign free + malloc through the large-object cache"),
+        leg("sweep+seq5q", "c17_seq", (0, 0), {"depth": 5}, flags=(), what="size/alignment sweep + all 12^5 operation sequences on fresh pools", tiers=("quick",)),
+        leg("sweep+seq6", "c17_seq", (0, 0), {"depth": 6}, flags=(), what="size/alignment sweep + all 12^6 operation sequences on fresh pools", tiers=("thorough",), weight=4.0),
+        leg("mt-foreign", "c17_mt", (4, 6), {"kind": "foreign", "size": 48}, what="foreign free vs owner malloc, 48-byte class"),
+        leg("mt-foreign8", "c17_mt", (4, 6), {"kind": "foreign", "size": 8}, what="8-byte class"),
+        leg("mt-foreign-fit", "c17_mt", (4, 5), {"kind": "foreign", "size": 3000}, what="fitting-size class"),
+        leg("mt-foreign-aligned", "c17_mt", (3, 4), {"kind": "foreign", "size": 1500, "align": 256, "after": 1792, "nown": 4}, what="blocks from scalable_aligned_malloc(1500, 256) (user address inside a 1792-byte slot) freed by another thread while the owner allocates full-slot objects"),
+        leg("mt-foreign-aligned2", "c17_mt", (3, 4), {"kind": "foreign", "size": 3000, "align": 1024, "after": 4032, "nown": 3}, what="same for the 4032-byte fitting bin, alignment 1024"),
+        leg("mt-foreign-aligned3", "c17_mt", (3, 4), {"kind": "foreign", "size": 2000, "align": 128, "after": 2688, "nown": 4}, what="same for the 2688-byte bin, alignment 128"),
+        leg("mt-exit", "c17_mt", (3, 4), {"kind": "exit", "size": 48}, what="owner thread shuts down with live blocks; another thread frees them and allocates (orphan adoption)"),
+        leg("mt-last", "c17_mt", (4, 5), {"kind": "last", "size": 8000}, what="foreign free of the only object of a slab vs owner malloc"),
+        leg("mt-large", "c17_mt", (3, 4), {"kind": "large", "size": 100000}, what="large objects: foreign free + malloc through the large-object cache"),
     ],
 }
 # ------------------------------------------------------------------------------------------------ C18
@@ -722,7 +722,7 @@ def _c15():
              "with a receiver that rejects by choice; overwrite/write_once op sequences; split/indexer/broadcast routing", weight=2.0),
          leg("vtbb-seq6", "c15_nodes", (1, 2), {"only": "seq", "depth": 6}, flags=(), what="buffer/queue/priority_queue/sequencer nodes: all legal operation sequences of length 6 over {put, try_get, try_reserve, try_release, try_consume, "
              "attach an accepting successor}, started from 0, 3, 4, 7 and 8 buffered items (capacity boundaries), forwarder tasks at explorer-chosen moments", weight=3.0),
-         leg("vtbb-seq7", "c15_nodes", (0, 1), {"only": "seq", "depth": 7, "prefills": "0.4"}, flags=(), what="all operation sequences of length 7 from 0 and 4 buffered items (ring wrap and growth of the item buffer)", tiers=("quick",), weight=2.0),
+         leg("vtbb-seq8", "c15_nodes", (0, 1), {"only": "seq", "depth": 8, "prefills": "0.4"}, flags=(), what="all operation sequences of length 8 from 0 and 4 buffered items (ring wrap and growth of the item buffer)", tiers=("quick",), weight=3.0),
          leg("vtbb-seq9", "c15_nodes", (1, 1), {"only": "seq", "depth": 9, "prefills": "0.4"}, flags=(), what="all operation sequences of length 9 from 0 and 4 buffered items", tiers=("thorough",), weight=4.0)]
     for k, b, what in [("limiter", (2, 3), "queue -> limiter(1) -> node -> decrementer, three messages"), ("limiter_ext", (1, 2), "same with a second putting thread"),
                        ("limiter_push", (2, 3), "a direct put is in flight inside a slow lightweight successor while the limiter's forward task serves a queued pull-mode predecessor"),
